@@ -68,6 +68,10 @@ def gen_prices(rng, T, grid, nan_rate, lead_nan):
             for _ in range(T):
                 p = p * (1 + rng.gauss(0, 0.03))
                 path.append(p)
+        if rng.random() < 0.18 and T >= 4:   # a worthless spell: price exactly zero for a few dates
+            k = rng.randint(1, T - 2)
+            for j in range(k, min(T, k + rng.randint(1, 3))):
+                path[j] = 0.0
         path = [None if (rng.random() < nan_rate) else x for x in path]
         if rng.random() < 0.1:  # late listing
             k = rng.randint(1, max(1, T // 2))
@@ -292,3 +296,33 @@ def run_history(bt, spec, rng=None, nops=30):
             d = op["d"]
     spec["ops"] = ops
     return steps, root, dates
+
+
+def scripted_hold(rng, spec):
+    """buy-and-hold script: fund, trade once or twice on early dates, then walk through every date
+    (with redundant same-date updates and occasional extra trades) — exercises mark-to-market through
+    price spells (zero prices, recoveries) on held positions."""
+    T = spec["T"]
+    ops = [{"op": "adjust", "path": [], "amount": spec["capital"], "update": True, "flow": True}, {"op": "update", "d": 0}]
+    secs = [p for p in all_paths(spec["tree"]) if p[1]]
+    d0 = 0
+    if spec["prices"] and all(v[0] is None for v in spec["prices"].values()):
+        ops.append({"op": "update", "d": 1})
+        d0 = 1
+    for p in secs:
+        if rng.random() < 0.8:
+            q = float(rng.randint(-30, 60)) or 5.0
+            ops.append({"op": "transact", "path": p[0], "q": q, "update": rng.random() < 0.5, "price": None})
+    ops.append({"op": "update", "d": d0})
+    for d in range(d0 + 1, T):
+        ops.append({"op": "update", "d": d})
+        if rng.random() < 0.3:
+            ops.append({"op": "observe", "on": "real"})
+        if rng.random() < 0.25:
+            ops.append({"op": "update", "d": d})
+        if rng.random() < 0.2 and secs:
+            p = rng.choice(secs)
+            ops.append({"op": "transact", "path": p[0], "q": float(rng.randint(-20, 20)) or 3.0, "update": True, "price": None})
+            ops.append({"op": "update", "d": d})
+    ops.append({"op": "observe", "on": "real"})
+    spec["ops"] = ops
